@@ -893,6 +893,7 @@ func wrapHelperRule(P *Program, r *Result, rel string) {
 			}
 		}
 		idOK, wrapOK := false, false
+		allWrap, nOther := true, 0
 		detail := ""
 		if ta == nil {
 			detail = "no direct comma-ok assertion of the argument to *ProtocolException"
@@ -912,7 +913,9 @@ func wrapHelperRule(P *Program, r *Result, rel string) {
 					idOK = true
 				}
 				if okv != nil && guardedBy(ret, okv, false) {
-					// new exception whose err field holds the argument
+					// new exception whose err field holds the argument — on every such way out
+					nOther++
+					wrapOK = false
 					var obj ssa.Value
 					if c := staticCallNamed(ret.Results[0], "NewProtocolException"); c != nil {
 						obj = c
@@ -933,8 +936,13 @@ func wrapHelperRule(P *Program, r *Result, rel string) {
 							}
 						}
 					}
+					if !wrapOK {
+						allWrap = false
+						detail = "the return at " + P.pos(instrPos(ret)) + " builds a protocol exception that does not carry the argument as its cause"
+					}
 				}
 			}
+			wrapOK = allWrap && nOther > 0
 		}
 		r.add("WRAP", shortName(fn), "return", "identity on errors that already are *ProtocolException", P.pos(fn.Pos()), idOK, detail)
 		r.add("WRAP", shortName(fn), "return", "otherwise the argument is stored in the wrapped-cause field of a new protocol exception", P.pos(fn.Pos()), wrapOK, detail)
